@@ -23,7 +23,9 @@ RULE = ("Hypothesis draws scale graphs of 1-5 scales over {Linear, Polynomial (0
         "piecewise-linear table from scaled to pre-scaled values, Subtract = right - left) with a per-element error bound from "
         "the magnitude of intermediate terms; exhaustive windows scaled(window) == window(scaled) bit for bit; lazy == eager "
         "bit for bit; raw bytes identical before and after every scaled read. Non-trivial: graph depth >= 2 or a binary node, "
-        "or properties not on the channel.")
+        "or properties not on the channel."
+        ' Windows of equal length follow one another and every array returned is re-checked at the end: later reads '
+        'must not change it.')
 ASSUMPTIONS = [
     "defining formulas evaluated in float64; Table maps scaled values to pre-scaled values and Subtract is right - left, as "
     "the module documents them",
